@@ -630,12 +630,12 @@ theorem C18_no_fail_no_marks (Y : YieldFn) (F : BodyFn) (ts : List PTask) (w : W
     ((setupProvisional { sm with so := sm.so.take [tv t] } t).stop = false →
       t ∉ (setupProvisional { sm with so := sm.so.take [tv t] } t).renewed) := by
   have hc : CleanMarks sm := (loop_marks pre s0 sm h1).1 (initSess_marks h0).1
-  obtain ⟨e1, e2⟩ := hc hnf
+  obtain ⟨e1, e2, _⟩ := hc hnf
   refine ⟨by rw [e1]; simp, by rw [e2]; simp, fun hre => ?_⟩
   have hm := setupProvisional_marks { sm with so := sm.so.take [tv t] } t
   have hrep := hm.reports_of_running hre
   have hc1 := hm.invariants.2.2.2.1 (show CleanMarks { sm with so := sm.so.take [tv t] } from hc)
-  have := (hc1 (fun r hr => hnf r (by rw [hrep] at hr; exact hr))).2
+  have := (hc1 (fun r hr => hnf r (by rw [hrep] at hr; exact hr))).2.1
   rw [this]; simp
 
 /-- `C18_rerun_runs` with the mark hypotheses discharged: in a build in which nothing has failed so far. -/
@@ -745,24 +745,10 @@ def f38Sm : Prov.Sess := match loop f38Y f11F f38S0 [1, 2, 5] with | .ok s => s 
 def f38S' : Prov.Sess := match loop f38Y f11F f38Sm [6] with | .ok s => s | .error _ => exDummy
 
 set_option maxRecDepth 8000 in
-/-- **C18_failed_ancestor_skips_full_false** (finding F42): 6 depends on 2's product, 2 on the pattern 1 failed to produce;
-1 FAIL, 2 SKIP_PREVIOUS_FAILED — and the function of 6 is called. -/
-theorem C18_failed_ancestor_skips_full_false : ¬ C18_failed_ancestor_skips_full := by
-  intro h
-  have := h f38Y f11F f38Ts f38W f38S0 f38Sm f38S' [1, 2, 5] 6 [] (f38Ts ++ [f38Kid]) 1 [2] (by rfl) (by rfl) (by rfl)
-    (by decide +kernel)
-    (by
-      intro x hx
-      rcases List.mem_append.1 hx with hx | hx
-      · exact Or.inl hx
-      · exact Or.inr ⟨5, [], by simpa [f38Y] using hx⟩)
-    (by decide +kernel)
-  revert this
-  decide +kernel
-
-set_option maxRecDepth 8000 in
-/-- what the model (like the implementation) does on the witness -/
+/-- The former F42 witness (refuted the clause before 501f7e1): 1 FAIL, 2 SKIP_PREVIOUS_FAILED, the generator defines 6 below
+2 — and 6 is now skipped: its function is not called. -/
 example : f38Sm.reports = [(1, Outcome.fail), (2, Outcome.skipPrevFailed), (5, Outcome.success)] ∧
-    (stepOf f38Y f11F f38Sm 6).log = [1, 5, 6] := by decide +kernel
+    (stepOf f38Y f11F f38Sm 6).log = f38Sm.log ∧
+    (stepOf f38Y f11F f38Sm 6).reports = f38Sm.reports ++ [(6, Outcome.skipPrevFailed)] := by decide +kernel
 
 end Pytask
